@@ -215,7 +215,7 @@ class C11:
     def flush_violations(self):
         for sig in sorted(self.pending):
             key, sch, case, text = self.pending[sig]
-            full = {"schema_xml": sch.entry.xml, "prelude": sch.gen.prelude()}
+            full = {"schema_xml": sch.entry.xml, "model": sch.entry.sch, "prelude": sch.gen.prelude()}
             full.update(case)
             self.res.violation(sig, full, text)
         self.pending = {}
@@ -781,8 +781,12 @@ def replay(path):
     work = common.build_dir("c11-replay-%d" % os.getpid())
     try:
         sp = os.path.join(work, "schema.xml")
-        with open(sp, "w") as f:
-            f.write(case["schema_xml"])
+        if case.get("model"):
+            from vlib import schemagen
+            sp = schemagen.write_schema(case["model"], work)   # (re-creates included fragments next to the schema)
+        else:
+            with open(sp, "w") as f:
+                f.write(case["schema_xml"])
         out_dir = os.path.join(work, "out")
         rc, out = common.run_sbeppc(common.build_sbeppc("plain"), sp, out_dir)
         if rc != 0:
